@@ -27,7 +27,7 @@ Definition check_case (c : scase) : nat :=
   let m := run (c_fwd c) cfg w in
   let o := c_obs c in
   (bit (negb (Nat.eqb (outcome_code m) (c_outcome c))) 1
-   + bit (negb (wfin_b w)) 4096
+   + bit (negb (wfin_b w && members_first_b w)) 4096
    + bit (Nat.leb 10 (c_outcome c)) 1024
    + match m with
      | Ok st =>
